@@ -461,6 +461,10 @@ func RunScenario(cfg *ScnCfg) (res Result) {
 			}
 		}()
 	}
+	if r, ok := cfg.Names[compName(a)]; ok {
+		objs[r] = a
+		s.Origs[reflect.ValueOf(a).Pointer()] = r
+	}
 	for i, in := range insts {
 		objs[cfg.Comps[i].Rank] = in
 		res.RegNames = append(res.RegNames, compName(in))
